@@ -39,10 +39,16 @@ int main(int argc, char** argv) {
       for (int g = 0; g < 3; ++g) mmin = std::min({mmin, p.ml[g], p.me[g], p.mq[g], p.mU[g], p.mD[g]});
       double a1[NK], a2[NK], af[NK], aph[NK], a2a[NK], t[NK], u[NK], s1[NK], s2[NK];
       bool ok = true;
+      // how the family of scaled models is produced: fresh objects, one object rescaled in place through the setters, or copies of the initialised base point rescaled
+      const int mode = static_cast<int>(i % 3);
+      static const char* const MODE[3] = {"fresh-objects", "rescaled-in-place", "rescaled-copies-of-base"};
+      c.str("family", MODE[mode]);
       try {
+         MSSMNoFV_onshell base = gen::make_mssm(p, 1), running = base;
          for (int j = 0; j < NK && ok; ++j) {
             const double k = std::ldexp(1.0, j);
-            MSSMNoFV_onshell m = gen::make_mssm(p, k);
+            MSSMNoFV_onshell m = mode == 0 ? gen::make_mssm(p, k) : (mode == 1 ? running : base);
+            if (mode != 0) { gen::fill_mssm(m, p, k); m.calculate_masses(); if (mode == 1) running = m; }
             if (m.get_problems().have_problem()) { ok = false; break; }
             a1[j] = calculate_amu_1loop(m); a2[j] = calculate_amu_2loop(m); af[j] = amu2LFSfapprox(m); aph[j] = amu2LChi0Photonic(m) + amu2LChipmPhotonic(m);
             a2a[j] = amu2LaSferm(m) + amu2LaCha(m); t[j] = tan_beta_cor(m); u[j] = calculate_uncertainty_amu_2loop(m); s1[j] = S1of(m);
@@ -53,7 +59,7 @@ int main(int argc, char** argv) {
       ++o.conclusive;
       auto judge = [&](const std::string& name, int j, double stat, double limit, const std::string& what) {
          J w = c; w.str("clause", name).i("k", 1 << j).d("statistic", stat).d("limit", limit).arr("a1L", a1, a1 + NK).arr("a2L", a2, a2 + NK).arr("tan_beta_cor", t, t + NK).arr("delta2L", u, u + NK);
-         o.cell(name + "|k" + std::to_string(1 << j), stat / limit, &w);
+         o.cell(name + "|k" + std::to_string(1 << j) + "|" + MODE[mode], stat / limit, &w);
          if (!(stat <= limit)) o.fail("C07:" + name, what + " at k=" + std::to_string(1 << j) + ": " + vh::num(stat) + " > " + vh::num(limit), w);
       };
       for (int j = 0; j + 1 < NK; ++j) {
